@@ -13,6 +13,7 @@ CONSTANTS
   STAMPCHECK = TRUE
   ACSTAMPCHECK = TRUE
   TRAVOFF = 0
+  RETAINCHECK = TRUE
 INVARIANTS Linearizable NoDeadlock ResizeSafe QuiescentOK ReadersNeverBlock IterWeak GhostOK
 PROPERTY NeverShrinks
 VIEW view
